@@ -141,8 +141,9 @@ def run(chk):
             nid = 1 + NAMES.index(name)
             did = 10 + NAMES.index(desc)
             pt = build_named(p, name, desc)
-            fn = os.path.join(tmp, f"pt_{i}.hdf5")
-            pt.export(fn)
+            # a small pool of file names, re-used with overwrite=True: what is imported must be what was exported LAST
+            fn = os.path.join(tmp, f"pt_{i % 3}.hdf5")
+            pt.export(fn, overwrite=i >= 3)
             m = {"d": d, "N": N, "dt": p.dt, "ranks": [x.ndim for x in p.mpos], "transforms": p.tin is not None,
                  "bonds": [x.shape[1] for x in p.mpos], "sentinel_cap": sentinel}
             for kind in ("file", "simple"):
